@@ -1,2 +1,228 @@
-"""generators producing spec text from the type definitions in /repo"""
-GENERATORS = {}
+"""Generators producing spec text from the *type definitions* in /repo (DESIGN 2.3).
+
+The oracle "every Expression-typed child of a node" must not be copied from the traversal code
+under test, so it is derived here from the struct / enum definitions of the IR
+(crates/tx3-tir/src/model/v1beta0.rs).  A field added to a type, or a child forgotten by a
+traversal, makes the generated postcondition fail.
+"""
+import os
+import re
+
+from .rustsrc import Source, header_regex, code_mask, match_close, AnchorLost
+
+V1 = 'crates/tx3-tir/src/model/v1beta0.rs'
+
+
+def _split_top(s, sep=','):
+    out, depth, cur = [], 0, ''
+    for ch in s:
+        if ch in '<([{':
+            depth += 1
+        elif ch in '>)]}':
+            depth -= 1
+        if ch == sep and depth == 0:
+            out.append(cur)
+            cur = ''
+        else:
+            cur += ch
+    if cur.strip():
+        out.append(cur)
+    return [x.strip() for x in out if x.strip()]
+
+
+def _strip_comments_attrs(body):
+    body = re.sub(r'//[^\n]*', '', body)
+    body = re.sub(r'#\[[^\]]*\]', '', body)
+    return body
+
+
+def parse_types(repo, relpath=V1):
+    """returns dict name -> ('struct', [(field, type)]) | ('enum', [(variant, [types] | {'named': [(f,t)]})])"""
+    path = os.path.join(repo, relpath)
+    text = open(path).read()
+    src = Source(relpath, text)
+    types = {}
+    for m in re.finditer(r'^pub (struct|enum) ([A-Za-z0-9_]+)\s*\{', text, re.M):
+        if not src.code[m.start()]:
+            continue
+        kind, name = m.group(1), m.group(2)
+        bo = m.end() - 1
+        bc = match_close(text, src.code, bo)
+        body = _strip_comments_attrs(text[bo + 1:bc])
+        if kind == 'struct':
+            fields = []
+            for part in _split_top(body):
+                mm = re.match(r'(?:pub(?:\([a-z]+\))?\s+)?((?:r#)?[A-Za-z0-9_]+)\s*:\s*(.+)$', part, re.S)
+                if not mm:
+                    raise AnchorLost('cannot parse field %r of %s' % (part, name))
+                fields.append((mm.group(1), re.sub(r'\s+', ' ', mm.group(2).strip())))
+            types[name] = ('struct', fields)
+        else:
+            variants = []
+            for part in _split_top(body):
+                mm = re.match(r'([A-Za-z0-9_]+)\s*(\((.*)\)|\{(.*)\})?$', part, re.S)
+                if not mm:
+                    raise AnchorLost('cannot parse variant %r of %s' % (part, name))
+                if mm.group(3) is not None:
+                    variants.append((mm.group(1), [re.sub(r'\s+', ' ', t) for t in _split_top(mm.group(3))]))
+                elif mm.group(4) is not None:
+                    named = []
+                    for f in _split_top(mm.group(4)):
+                        m3 = re.match(r'((?:r#)?[A-Za-z0-9_]+)\s*:\s*(.+)$', f, re.S)
+                        named.append((m3.group(1), re.sub(r'\s+', ' ', m3.group(2).strip())))
+                    variants.append((mm.group(1), {'named': named}))
+                else:
+                    variants.append((mm.group(1), []))
+            types[name] = ('enum', variants)
+    return types
+
+
+# node types whose children are enumerated by hand-written code in reduce/mod.rs and v1beta0.rs
+COMPOSITES = ['StructExpr', 'AssetExpr', 'Coerce', 'BuiltInOp', 'CompilerOp', 'AdHocDirective', 'InputQuery',
+              'Input', 'Output', 'Validity', 'Mint', 'Collateral', 'Metadata', 'Signers']
+
+
+def gen_children(repo, args, lines):
+    """children_T / mapped_T for the Composite impls.  For every node type T:
+
+      children_T(x)      Seq<Expression>: every field of type Expression (in declaration order);
+                         Vec<Expression> fields contribute all their elements
+      mapped_T(x, o, f)  o is x with every child c replaced by an f-image of c
+                         (f.ensures((c,), Ok(c'))) and every other field unchanged
+    HashMap<String, Expression> fields have no order: children_T is not generated for them,
+    instead keyed_children_T(x) : Map<String, Expression>."""
+    types = parse_types(repo)
+    wanted = args or COMPOSITES
+    out = []
+    info = {'types': {}}
+    for name in wanted:
+        if name not in types:
+            raise AnchorLost('type %s not found in %s' % (name, V1))
+        kind, body = types[name]
+        info['types'][name] = body
+        if kind == 'struct':
+            seqs, mapped, keyed = [], [], None
+            for f, t in body:
+                if t == 'Expression':
+                    seqs.append('seq![x.%s]' % f)
+                    mapped.append('f.ensures((x.%s,), Ok(o.%s))' % (f, f))
+                elif t == 'Vec<Expression>':
+                    seqs.append('x.%s@' % f)
+                    mapped.append('(o.%s@.len() == x.%s@.len() && forall|i: int| 0 <= i < x.%s@.len() ==> f.ensures((#[trigger] x.%s@[i],), Ok(o.%s@[i])))' % (f, f, f, f, f))
+                elif t == 'HashMap<String, Expression>':
+                    keyed = f
+                    mapped.append('(o.%s@.dom() =~= x.%s@.dom() && forall|k: String| x.%s@.contains_key(k) ==> f.ensures((#[trigger] x.%s@[k],), Ok(o.%s@[k])))' % (f, f, f, f, f))
+                elif 'Expression' in t:
+                    raise AnchorLost('field %s.%s has a type the oracle does not know: %s' % (name, f, t))
+                else:
+                    mapped.append('o.%s == x.%s' % (f, f))
+            if keyed is None:
+                expr = ' + '.join(seqs) if seqs else 'Seq::<Expression>::empty()'
+                out.append('pub open spec fn children_%s(x: %s) -> Seq<Expression> { %s }' % (name, name, expr))
+            else:
+                if seqs:
+                    raise AnchorLost('%s mixes keyed and ordered children' % name)
+                out.append('pub open spec fn keyed_children_%s(x: %s) -> Map<String, Expression> { x.%s@ }' % (name, name, keyed))
+            out.append('pub open spec fn mapped_%s<F: Fn(Expression) -> Result<Expression, Error>>(x: %s, o: %s, f: F) -> bool {\n    %s\n}' % (
+                name, name, name, '\n    && '.join(mapped) if mapped else 'true'))
+        else:
+            arms, marms = [], []
+            for v, ts in body:
+                if isinstance(ts, dict):
+                    raise AnchorLost('struct-like variant %s::%s' % (name, v))
+                if any(t != 'Expression' for t in ts):
+                    raise AnchorLost('variant %s::%s carries a non-Expression payload: %s' % (name, v, ts))
+                xs = ['a%d' % i for i in range(len(ts))]
+                ys = ['b%d' % i for i in range(len(ts))]
+                pat = '%s::%s%s' % (name, v, '(%s)' % ', '.join(xs) if xs else '')
+                pat2 = '%s::%s%s' % (name, v, '(%s)' % ', '.join(ys) if ys else '')
+                arms.append('        %s => %s,' % (pat, 'seq![%s]' % ', '.join(xs) if xs else 'Seq::<Expression>::empty()'))
+                marms.append('        (%s, %s) => %s,' % (pat, pat2, ' && '.join('f.ensures((%s,), Ok(%s))' % (a, b) for a, b in zip(xs, ys)) or 'true'))
+            out.append('pub open spec fn children_%s(x: %s) -> Seq<Expression> {\n    match x {\n%s\n    }\n}' % (name, name, '\n'.join(arms)))
+            out.append('pub open spec fn mapped_%s<F: Fn(Expression) -> Result<Expression, Error>>(x: %s, o: %s, f: F) -> bool {\n    match (x, o) {\n%s\n        _ => false,\n    }\n}' % (
+                name, name, name, '\n'.join(marms)))
+    return '\n'.join(out) + '\n', info
+
+
+def gen_tx_fields(repo, args, lines):
+    """For `impl Apply for Tx`: every field of `struct Tx` goes through the same stage.
+    args: pairs  <spec-fn-name>:<method-call-template with {f}>  e.g.  tx_args:sp_args(args)"""
+    types = parse_types(repo)
+    kind, fields = types['Tx']
+    out = []
+    for a in args:
+        nm, call = a.split(':', 1)
+        params = {'sp_args(args)': 'args: Map<String, ArgValue>', 'sp_inputs(args)': 'args: Map<String, Set<Utxo>>', 'sp_fees(fees)': 'fees: u64', 'sp_reduce()': ''}[call]
+        sig = ('x: Tx, t: Tx' + (', ' + params if params else ''))
+        out.append('// every one of the %d fields of `struct Tx` is mapped by the stage (generated from the struct definition)' % len(fields))
+        out.append('pub open spec fn %s_ok(%s) -> bool {\n%s\n}' % (nm, sig, '\n'.join('    &&& x.%s.%s == Ok::<_, Error>(t.%s)' % (f, call, f) for f, _ in fields)))
+        out.append('pub open spec fn %s_err(%s) -> bool {\n%s\n}' % (nm, 'x: Tx' + (', ' + params if params else ''), '\n'.join('    ||| x.%s.%s is Err' % (f, call) for f, _ in fields)))
+    out.append('pub open spec fn tx_params_union(x: Tx) -> Map<String, Type> {\n    %s\n}' % ('Map::<String, Type>::empty()' + ''.join('.union_prefer_right(x.%s.sp_params())' % f for f, _ in fields)))
+    return '\n'.join(out) + '\n', {'fields': fields}
+
+
+def gen_node(repo, args, lines):
+    """For `impl Node for T`: the functional specification of one visitor pass over T,
+    generated from the type definition: every child (Expression, or a container / node type that
+    itself implements Node) is visited, left to right in declaration order, errors propagate,
+    all other fields are kept."""
+    types = parse_types(repo)
+    wanted = args
+    out = []
+    node_types = set(['Expression', 'StructExpr', 'AssetExpr', 'InputQuery', 'Param', 'BuiltInOp', 'CompilerOp', 'Coerce', 'Input', 'Output',
+                      'Validity', 'Mint', 'Collateral', 'Metadata', 'Signers', 'AdHocDirective', 'Tx'])
+
+    def is_node(t):
+        t = t.strip()
+        if t in node_types:
+            return True
+        m = re.match(r'(Vec|Option|Box)<(.*)>$', t)
+        if m:
+            return is_node(m.group(2))
+        if t == 'HashMap<String, Expression>':
+            return True
+        return False
+
+    def chain(items, build):
+        """items: list of (binder, expr-to-visit or None if kept as is)"""
+        text = build
+        for b, e in reversed(items):
+            if e is None:
+                continue
+            text = 'match %s.sp_visit(v) { Err(e) => Err(e), Ok(%s) => %s }' % (e, b, text)
+        return text
+
+    for name in wanted:
+        kind, body = types[name]
+        if kind == 'struct':
+            items = []
+            inits = []
+            for f, t in body:
+                b = 'n_' + f.replace('r#', '')
+                if is_node(t):
+                    items.append((b, 'x.%s' % f))
+                    inits.append('%s: %s' % (f, b))
+                else:
+                    inits.append('%s: x.%s' % (f, f))
+            text = chain(items, 'Ok(%s { %s })' % (name, ', '.join(inits)))
+            out.append('pub open spec fn node_%s<V: Visitor>(x: %s, v: V) -> Result<%s, Error> {\n    %s\n}' % (name, name, name, text))
+        else:
+            arms = []
+            for vname, ts in body:
+                xs = ['a%d' % i for i in range(len(ts))]
+                items = []
+                args_ = []
+                for a, t in zip(xs, ts):
+                    if is_node(t):
+                        items.append(('n' + a, a))
+                        args_.append('n' + a)
+                    else:
+                        args_.append(a)
+                pat = '%s::%s%s' % (name, vname, '(%s)' % ', '.join(xs) if xs else '')
+                build = 'Ok(%s::%s%s)' % (name, vname, '(%s)' % ', '.join(args_) if xs else '')
+                arms.append('        %s => %s,' % (pat, chain(items, build)))
+            out.append('pub open spec fn node_%s<V: Visitor>(x: %s, v: V) -> Result<%s, Error> {\n    match x {\n%s\n    }\n}' % (name, name, name, '\n'.join(arms)))
+    return '\n'.join(out) + '\n', {}
+
+
+GENERATORS = {'tir_children': gen_children, 'tir_tx_fields': gen_tx_fields, 'tir_node': gen_node}
